@@ -16,10 +16,16 @@ def pipeline_cases(run):
     rng = run.rng
     n = 0
     nlong = run.n(1, 6)
-    for it in range(run.n(36, 900) + nlong):
+    nlate = run.n(10, 120)
+    for it in range(run.n(36, 900) + nlong + nlate):
         topo = rng.choice(['chain', 'chain', 'tee', 'rejoin', 'join', 'topics'])
         nf = rng.randint(6, 18)
         long_join = it < nlong
+        late_sub = nlong <= it < nlong + nlate
+        if late_sub:
+            # a consumer of two publishers whose subscription to one of them comes up long after its requests got through
+            # (up to 400 ms, several request intervals): the very first frame still arrives
+            topo = rng.choice(['join', 'join', 'rejoin'])
         if long_join:
             # an independent join that runs long enough for one source's lead over the other to reach the PUB/SUB pipe's capacity
             # (SNDHWM 20 + RCVHWM 1000 messages on the pinned code): the waiting consumer repeats its request to BOTH sources
@@ -77,12 +83,18 @@ def pipeline_cases(run):
                     nf = int(510 * (1 + 1 / (per2 * 10))) + rng.randint(15, 40)   # 2 messages per frame: 510 frames fill the pipe
                     n1, wj = 10 ** 6, 0
                     case.update(frames=nf, long_join=True)
+                if late_sub:
+                    per2, wj = rng.choice([0, 0, 0.05]), 0      # quick sources, a quick join: what is lost is lost in the first half second
                 case.update(period2=per2)
                 specs = [dict(id='src', kind='src', n=n1, outputs=a0[0], outputs_required='join', topics=['a']),
                          dict(id='src2', kind='src', n=nf, outputs=a1[0], outputs_required='join', topics=['b'], period=per2),
                          dict(id='join', kind='sink', sources=[a0[1], a1[1]], work=wj)]
                 ref = dict(join=list(range(nf)))
-        p = pipes.Pipeline(specs, seed=seed, delay_ms=delay)
+        # the two sockets of a consumer connect independently: its requests may reach a publisher before its subscription is up
+        # (the handshake - 'new' requests answered by HELLO - is what keeps the first frames from being published into the void)
+        join_ms = (0, 400) if late_sub else rng.choice([(0, 0), (0, 0), (0, 40), (30, 120)])
+        case.update(sub_join_ms=join_ms)
+        p = pipes.Pipeline(specs, seed=seed, delay_ms=delay, sub_join_ms=join_ms)
         rec = p.run(600, max_steps=400000)
         n += 1
         run.count('pipe:%s' % topo)
